@@ -11,6 +11,7 @@ class Store:
         self.log = []            # (method, key, status, size)
         self.puts = 0; self.gets = 0
         self.fail_put_once = set(); self.fail_put_always = set(); self.fail_get_once = set(); self.always_keys = set(); self.fail_get_suffix = set()   # GETs of objects whose key ends so fail every time
+        self.fail_get_n = {}          # suffix -> how many more GETs of objects whose key ends so fail (a fault that outlasts the SDK's own retries and then heals)
         self.lock = threading.Lock()
 
 def decode_aws_chunked(body):
@@ -68,6 +69,9 @@ def make_handler(store):
             with store.lock:
                 store.gets += 1; k = store.gets
                 fail = k in store.fail_get_once or any(key.endswith(sfx) for sfx in store.fail_get_suffix)
+                for sfx in list(store.fail_get_n):
+                    if key.endswith(sfx) and store.fail_get_n[sfx] > 0 and not fail:
+                        store.fail_get_n[sfx] -= 1; fail = True
                 store.fail_get_once.discard(k)
                 data = store.objects.get(key)
                 store.log.append(("GET", key, 500 if fail else (200 if data is not None else 404), len(data or b"")))
